@@ -555,9 +555,6 @@ pub fn vh_fetch(a: &Args) {
             for &hdr in hdrs {
                 for &bufsz in &bufsizes {
                     for &status in &statuses {
-                        // exhaustive tier: the status dimension is crossed with the full grid only
-                        // for the plain "data available" status; other codes use the coarse grid
-                        let (lens, offs) = if exhaustive && status != 0x24 { (&grid, &grid) } else { (lens, offs) };
                         for &off in offs {
                             let mut cs: Vec<Value> = Vec::with_capacity(lens.len());
                             for &l in lens {
